@@ -32,9 +32,11 @@ def nonnan(rnd, t):
 
 def build(rnd, k):
     m = Module()
-    memk = ['none', 'defined', 'imported'][k % 3]
-    tblk = ['none', 'defined', 'imported'][(k // 3) % 3]
-    has_start = (k // 9) % 2 == 1
+    # 'shared': the module DEFINES a shared memory (threads feature); a child created by common.newChild then shares the parent's
+    # memory, has the active segments applied again, and runs the start function on the child (reference: see harness/ref.cjs child_mem)
+    memk = ['none', 'defined', 'imported', 'shared', 'defined', 'imported'][k % 6]
+    tblk = ['none', 'defined', 'imported'][(k // 6) % 3]
+    has_start = (k // 18) % 2 == 1 or (memk == 'shared' and k % 4 != 3)
     inits = {}
     # imports first: host func, memory, table, globals
     host = m.import_func('env', 'note', [I32, I64], [])
@@ -62,6 +64,8 @@ def build(rnd, k):
         imp_globals.append((len(imp_globals), t, mut))
     if memk == 'defined':
         m.mems.append((rnd.randint(1, 3), rnd.choice([None, 3, 8]), False))
+    if memk == 'shared':
+        m.mems.append((rnd.randint(1, 3), rnd.choice([3, 8]), True))
     if memk != 'none':
         m.exports.append((rnd.choice(['memory', 'memory', 'm\u00e9m', 'mem-0', 'Xmem__x', '\u8a18\u61b6']), 'memory', 0))
     tsize = 0
@@ -208,7 +212,7 @@ def script_for(rnd, plan, m, exports, shape, tsize, gtypes):
         emit('c 0 %d 0x3000 0x55' % plan.fk('poke'), 'poke', 0)
     # the second instance is either instantiated afresh or created as a CHILD of the first (common.newChild, what thread-spawn uses):
     # without shared memories a child is observably a fresh instance built with the same resolver, whose start function runs on the child
-    emit('N 0 1' if rnd.random() < 0.4 else 'I 1', 'inst', 1)
+    emit('N 0 1' if rnd.random() < (0.7 if memk == 'shared' else 0.4) else 'I 1', 'inst', 1)
     emit('t', 'starttrace', 1)
     dump(1)
     dump(0)
@@ -228,7 +232,23 @@ def script_for(rnd, plan, m, exports, shape, tsize, gtypes):
             emit('c %d %d' % (inst, plan.fk(nm)), 'global', inst)
     dump(0)
     dump(1)
-    if rnd.random() < 0.4:
+    if memk == 'shared' and rnd.random() < 0.5:
+        # a second child (of either instance): shares that instance's memory, has its own globals, start runs on it
+        emit('N %d 2' % rnd.randint(0, 1), 'inst', 2)
+        emit('t', 'starttrace', 2)
+        dump(2)
+        dump(0)
+        dump(1)
+        for i in range(6):
+            inst = rnd.randint(0, 2)
+            if rnd.random() < 0.5:
+                emit('c %d %d %s %s' % (inst, plan.fk('poke'), hex(rnd.randint(0, 65535)), hex(rnd.getrandbits(8))), 'poke', inst)
+            else:
+                emit('c %d %d %s' % (inst, plan.fk('peek'), hex(rnd.choice([5, 16, 0x3000, rnd.randint(0, 65535)]))), 'peek', inst)
+        dump(2)
+        dump(0)
+    # (instances of a module with a defined shared memory are not freed here: parent and child both own the one memory object)
+    if memk != 'shared' and rnd.random() < 0.4:
         # free one instance and instantiate it again (or a third one): the fresh instance starts from the specified initial state
         # again, the surviving instance keeps its own state, objects handed out by the resolver stay usable (not freed with the instance)
         victim = rnd.randint(0, 1)
@@ -301,7 +321,16 @@ def main(chk):
         plan = e2e.Plan(m, import_inits=inits)
         script, kinds = script_for(rnd, plan, m, exports, shape, tsize, gtypes)
         d = env.subdir('c06-%d' % k)
-        st, ref, _ = e2e.run_ref(b, plan, script, d)
+        ref_b, cfgx, cdefs, link = b, None, [], []
+        if shape[0] == 'shared':
+            import copy
+            mr = copy.deepcopy(m)
+            mn, mx, _sh = mr.mems.pop()
+            mr.imports.append(('vshm', 'mem', 'memory', (mn, mx, True)))
+            ref_b = mr.encode()
+            cfgx = {'child_mem': {'mod': 'vshm', 'name': 'mem', 'min': mn, 'max': mx}}
+            cdefs, link = ['-DWASM_THREADS_PTHREADS'], ['-lpthread']
+        st, ref, _ = e2e.run_ref(ref_b, plan, script, d, cfg_extra=cfgx)
         outs = {}
         if st == 'ok':
             # second pass: add probes of every covered slot (known from the reference's bitmap)
@@ -315,13 +344,13 @@ def main(chk):
                 sl[at:at] = extra
                 kinds[at:at] = ekinds
                 script = '\n'.join(sl) + '\n'
-                st, ref, _ = e2e.run_ref(b, plan, script, d)
+                st, ref, _ = e2e.run_ref(ref_b, plan, script, d, cfg_extra=cfgx)
             kbuilds = list(builds)
             if k % 4 == 0:
                 # instance teardown and re-instantiation under ASan+UBSan (use after free / double free of instance-owned and imported objects)
                 kbuilds.append(('gcc-O1-asan', 'gcc', ['-O1', '-g', '-fsanitize=address,undefined', '-fno-sanitize-recover=all']))
             for tag, cc, cflags in kbuilds:
-                outs[tag] = e2e.build_and_run(w2c2, b, plan, script, os.path.join(d, tag), cc=cc, cflags=cflags, opts=progs.opts_for(k))[:2]
+                outs[tag] = e2e.build_and_run(w2c2, b, plan, script, os.path.join(d, tag), cc=cc, cflags=cflags, opts=progs.opts_for(k), cdefs=cdefs, link=link)[:2]
         shutil.rmtree(d, ignore_errors=True)
         return k, shape, b, script, kinds, st, ref, outs
 
